@@ -22,10 +22,10 @@ if [ -f $O/demo.diff ]; then
   echo "suite+demo without patch: $WITHOUT"
 elif [ -f $O/demo.sh ]; then
   CARGO_NET_OFFLINE=true cargo build --offline >/dev/null 2>&1
-  bash $O/demo.sh $W >/tmp/seed/$ID-demo-with.log 2>&1; echo "demo.sh with patch: exit $?"
+  bash $O/demo.sh ${DEMO_ARG:-$W} >/tmp/seed/$ID-demo-with.log 2>&1; echo "demo.sh with patch: exit $?"
   git checkout -q -- . ; git clean -fdq src 2>/dev/null
   CARGO_NET_OFFLINE=true cargo build --offline >/dev/null 2>&1
-  bash $O/demo.sh $W >/tmp/seed/$ID-demo-without.log 2>&1; echo "demo.sh without patch: exit $?"
+  bash $O/demo.sh ${DEMO_ARG:-$W} >/tmp/seed/$ID-demo-without.log 2>&1; echo "demo.sh without patch: exit $?"
 fi
 git checkout -q -- . ; git clean -fdq src 2>/dev/null
 echo "== [$ID] run checks against /repo + patch"
